@@ -96,7 +96,12 @@ def run_family(run, fam, cases, known_classes):
         else:
             why = None if il == spart else "implementation differs from the specification"
         if why is not None:
-            if cls is not None and cls in known_classes:
+            scope = getattr(fam, "scope_classes", None) or {}
+            if cls is not None and cls in scope and scope[cls](case, il):
+                # outside the property's scope: the case is a DOCUMENTED invalid input and the implementation gave the documented
+                # answer for it (e.g. zero in a divisor's domain -> Err(InvalidConstraint), C17); nothing is held against it
+                st["out_of_scope"] = st.get("out_of_scope", 0) + 1
+            elif cls is not None and cls in known_classes:
                 st["known"] += 1
                 run.known_seen[cls] = run.known_seen.get(cls, 0) + 1
             else:
